@@ -32,6 +32,8 @@ func main() {
 	g.pinnedRetHist()
 	g.pinnedNamed()
 	g.pinnedKMap()
+	g.pinnedNMap()
+	g.sweepDelElem()
 	g.pinnedCallback()
 	g.fieldWriteCase(0, &gty{rt: kinds[0].rt, coq: "(TNum KI)", kind: "num", nk: 0}, jsString("eighty"))
 	g.fieldWriteCase(5, &gty{rt: kinds[0].rt, coq: "(TNum KI)", kind: "num", nk: 0}, jsx{"true", "(JBool true)"})
@@ -40,7 +42,7 @@ func main() {
 	g.sweepStore()
 	g.sweepArity()
 	for env.Count() < env.N {
-		switch env.Rng.Intn(70) {
+		switch env.Rng.Intn(74) {
 		case 0, 1, 2:
 			g.randNum()
 		case 3, 4, 5:
@@ -81,6 +83,8 @@ func main() {
 			g.randKMap()
 		case 57, 58, 59, 60:
 			g.randCallback()
+		case 61, 62, 63, 64:
+			g.nmapHist(nil)
 		default:
 			g.callCase()
 		}
